@@ -1498,6 +1498,13 @@ impl<'a, 'src: 'a> Compiler<'a, 'src> {
         self.define_variable(rename.str(), SymbolState::ModuleInitialized, import.span());
       },
       ast::ImportStem::Symbols(symbols) => {
+        // an empty selection still imports: the module is loaded (or reported missing) and
+        // the import object dropped
+        if symbols.is_empty() {
+          self.emit_byte(SymbolicByteCode::Import(path), import.start());
+          self.emit_byte(SymbolicByteCode::Drop, import.end());
+        }
+
         for symbol in symbols {
           let name = match &symbol.rename {
             Some(rename) => rename,
